@@ -153,9 +153,10 @@ fn run_routes(
 ) -> Vec<(&'static str, Result<Val, RouteErr>, bool)> {
     let mut res = Vec::new();
     for route in ALL_ROUTES {
-        if !sc.wants(route) {
+        if !route_on(sc, route) {
             continue;
         }
+        out.stats.inc(&format!("route.{}", route.split(':').next().unwrap_or(route)));
         let is_v = *route == R7A || *route == R7B || *route == R7C;
         let t = if is_v {
             match vtext {
@@ -458,7 +459,7 @@ fn exec_b(sc: &Scenario, verbose: bool, out: &mut RunOut) {
         let mut sc2 = sc.clone();
         // single-value routes do not apply to whole documents
         if sc2.only.is_empty() {
-            sc2.only = DOC_ROUTES.iter().map(|s| s.to_string()).collect();
+            sc2.only = DOC_ROUTES_X.iter().filter(|r| route_on(sc, r)).map(|s| s.to_string()).collect();
         }
         let res = run_routes(&sc2, text, None, ty, f, out, verbose);
         if out.harness_error.is_some() || f != Fault::None {
